@@ -8,7 +8,7 @@
    [etx_total] sums value+fee debited for the emitted ETXs; [burn] is value destroyed; [rent_credit] is
    (base fee x CallNewAccountGas) x number of rent refunds granted. *)
 From Coq Require Import List ZArith NArith Bool.
-From GQ Require Import Lib.C02_BMap Generated.C02Sites Model.C02 Proofs.C02_Exec Proofs.C02_Trans Proofs.C02.
+From GQ Require Import Lib.C02_BMap Generated.C02Sites Model.C02 Proofs.C02_Exec Proofs.C02_Trans Proofs.C02_Out Proofs.C02.
 Import ListNotations.
 Local Open Scope Z_scope.
 
@@ -115,6 +115,32 @@ Theorem reverted_frame_balance_neutral : forall e a s,
   reverted_frame a = true -> core (exec e a s) = core s.
 Proof. exact reverted_frame_neutral. Qed.
 Print Assumptions reverted_frame_balance_neutral.
+
+(* 7b. The outbound set.  [live_sends a] lists, from the tree alone, the sends recorded by operations that
+       are not inside a frame that failed and was rolled back (any frame kind: CALL, CALLCODE, DELEGATECALL,
+       STATICCALL, CREATE/CREATE2, out-of-zone CALL).  Whatever runs, from whatever state, the ETX cache
+       grows by a subsequence of that list, in order: an ETX recorded inside a frame that later fails - at
+       any depth below it - never stays in the outbound set. *)
+Theorem outbound_only_from_surviving_sends : forall e a s,
+  exists d, etx (exec e a s) = etx s ++ d /\ sublist d (live_sends a).
+Proof. exact exec_outbound. Qed.
+Print Assumptions outbound_only_from_surviving_sends.
+
+Theorem failed_frame_emits_no_etx : forall e a s,
+  reverted_frame a = true -> etx (exec e a s) = etx s.
+Proof. exact failed_frame_emits_nothing. Qed.
+Print Assumptions failed_frame_emits_no_etx.
+
+(* 7c. ... and for the whole transaction (any message kind, any outcome, Finalize included): the ETXs of
+       the result are a subsequence of the surviving sends of the top-level action.  With theorem 1 (the
+       balances dropped by the debits of exactly the ETXs of the result) no ETX leaves that nobody paid. *)
+Theorem result_etxs_only_from_surviving_sends : forall e m o top b s' r,
+  apply_tx e m o top (init b) = (s', r) ->
+  sublist (etx s') (live_sends top)
+  /\ (forall x, In x (etx s') -> In x (live_sends top))
+  /\ (length (etx s') <= length (live_sends top))%nat.
+Proof. exact tx_outbound. Qed.
+Print Assumptions result_etxs_only_from_surviving_sends.
 
 (* 8. Every action conserves the ledger (balances + ETX debits + destroyed - minted refunds). *)
 Theorem action_conserves : forall e a, wf a = true -> forall s, ledger e (exec e a s) = ledger e s.
@@ -241,6 +267,25 @@ Example block_nonvacuous :
   exists b' acc', run_block [t1; t2] nv_pre tot0 = (b', acc')
     /\ bsum b' = bsum nv_pre - 240000 - 46 - 0 + 50000 + 900 /\ tot_inbound acc' = 900 /\ tot_rent acc' = 50000.
 Proof. eexists. eexists. split; [vm_compute; reflexivity|]. repeat split; reflexivity. Qed.
+
+(* the blind-change class: code entered by DELEGATECALL (same for CALLCODE: [checked] = true) debits the
+   caller for an ETX of 500 + 42000 fee and then fails while the caller carries on and emits its own ETX
+   of 7: only the 7 leaves, account 2 pays gas-free exactly 7, the 500 are neither debited nor emitted *)
+Example outbound_nonvacuous :
+  let top := ACall 1%N 2%N 0 2%N false
+               [AFrame 2%N 0 false 2%N [AEtx 2%N 500 42000 true true; ACall 2%N 3%N 1 2%N false [] false] true;
+                AFrame 2%N 3 true 2%N [AEtx 2%N 600 0 true true] true;
+                AEtx 2%N 7 0 true true] false in
+  let pre := [(1%N, 1000000); (2%N, 100000); (3%N, 0)] in
+  exists s', apply_tx nv_env nv_msg nv_opq top (init pre) = (s', RDone 80000 false)
+    /\ live_sends top = [(7, 0)] /\ etx s' = [(7, 0)]
+    /\ bal s' = [(1%N, 760000); (2%N, 99993); (3%N, 0)]
+    /\ (* the same tree with the inner frames NOT marked failed would have emitted all three *)
+       live_sends (ACall 1%N 2%N 0 2%N false
+               [AFrame 2%N 0 false 2%N [AEtx 2%N 500 42000 true true] false;
+                AFrame 2%N 3 true 2%N [AEtx 2%N 600 0 true true] false;
+                AEtx 2%N 7 0 true true] false) = [(500, 42000); (600, 0); (7, 0)].
+Proof. eexists. split; [vm_compute; reflexivity|]. repeat split; reflexivity. Qed.
 
 (* an inbound ETX whose target reverts: the staged value is lost, nothing is created *)
 Example inbound_etx_nonvacuous :
